@@ -13,12 +13,13 @@ type scenario struct {
 	split  int
 	manual bool
 	wsize  int
+	maxbuf int // drpcstream.Options.MaximumBufferSize (no observable effect: the model ignores it)
 	acts   []string
 	obs    []string
 }
 
 func (sc *scenario) request() string {
-	return fmt.Sprintf("stream split=%d manual=%s wsize=%d ops=%s", sc.split, corr.B01(sc.manual), sc.wsize, strings.Join(sc.acts, ";"))
+	return fmt.Sprintf("stream split=%d manual=%s wsize=%d maxbuf=%d ops=%s", sc.split, corr.B01(sc.manual), sc.wsize, sc.maxbuf, strings.Join(sc.acts, ";"))
 }
 
 type status struct {
@@ -106,7 +107,7 @@ func randCall(o *corr.Out, sc *scenario) string {
 // runScenario executes the actions online on a fresh world; `next` chooses the following action
 // given the world (nil = stop).
 func runScenario(sc *scenario, next func(w *World, step int) string) *World {
-	w := NewWorld(sc.split, sc.manual, sc.wsize)
+	w := NewWorld(sc.split, sc.manual, sc.wsize, sc.maxbuf)
 	for step := 0; step < 40; step++ {
 		a := next(w, step)
 		if a == "" {
@@ -207,6 +208,69 @@ func oracles(o *corr.Out, sc *scenario, w *World) {
 			}
 		}
 		o.OracleOK("C01:send-reaches-wire")
+	}
+	// (1b') C01: every message on the wire carries a payload some send of this history was given,
+	// each send at most once (nothing altered, duplicated or invented on the sending side)
+	{
+		var issued []string
+		for _, a := range sc.acts {
+			if f := strings.Split(a, "!"); len(f) == 3 && f[0] == "i" {
+				if strings.HasPrefix(f[2], "send:") {
+					issued = append(issued, strings.TrimPrefix(f[2], "send:"))
+				} else if strings.HasPrefix(f[2], "sendp:") {
+					issued = append(issued, strings.TrimPrefix(f[2], "sendp:"))
+				}
+			}
+		}
+		var cur []byte
+		curActive := false
+		bad := ""
+		for _, ob := range sc.obs {
+			wv := field(ob, "w=")
+			if wv == "-" || wv == "" {
+				continue
+			}
+			for _, hx := range strings.Split(wv, ",") {
+				rem := unhex(hx)
+				for len(rem) > 0 {
+					r := wire.RefDecode(rem)
+					if r.State() != "ok" {
+						break
+					}
+					fr := r.Frame()
+					rem = rem[len(rem)-r.Rem():]
+					if fr.Kind != drpcwire.KindMessage {
+						curActive = false
+						continue
+					}
+					if !curActive {
+						cur, curActive = nil, true
+					}
+					cur = append(cur, fr.Data...)
+					if fr.Done {
+						got := corr.Hex(cur)
+						found := -1
+						for k, p := range issued {
+							if p == got || (p == "-" && got == "") || (p == "" && got == "-") {
+								found = k
+								break
+							}
+						}
+						if found < 0 {
+							bad = fmt.Sprintf("a message with payload %s is on the wire; no (remaining) send was given that payload", got)
+						} else {
+							issued = append(issued[:found], issued[found+1:]...)
+						}
+						curActive = false
+					}
+				}
+			}
+		}
+		if bad != "" {
+			o.Oracle("C01:wire-payload-was-sent", sc.request(), bad)
+		} else {
+			o.OracleOK("C01:wire-payload-was-sent")
+		}
 	}
 	// (1c) C05: a transport write that failed is reported by the call it belonged to
 	for i, a := range sc.acts {
@@ -346,7 +410,7 @@ func Run(o *corr.Out) {
 	}
 	for i := 0; i < nSeq; i++ {
 		c := cfgs[o.Rand.Intn(len(cfgs))]
-		sc := &scenario{split: c.split, manual: c.manual, wsize: c.wsize}
+		sc := &scenario{split: c.split, manual: c.manual, wsize: c.wsize, maxbuf: []int{0, 0, 3, 12}[o.Rand.Intn(4)]}
 		n := 2 + o.Rand.Intn(9)
 		tid := 0
 		w := runScenario(sc, func(w *World, step int) string {
@@ -379,7 +443,7 @@ func Run(o *corr.Out) {
 	}
 	for i := 0; i < nPark; i++ {
 		c := cfgs[o.Rand.Intn(len(cfgs))]
-		sc := &scenario{split: c.split, manual: c.manual, wsize: c.wsize}
+		sc := &scenario{split: c.split, manual: c.manual, wsize: c.wsize, maxbuf: []int{0, 0, 3, 12}[o.Rand.Intn(4)]}
 		n := 4 + o.Rand.Intn(14)
 		tid := 0
 		w := runScenario(sc, func(w *World, step int) string {
